@@ -1242,6 +1242,12 @@ class Tr:
                 fail(node, "interp1d object applied to a non-scalar")
             self.pending.append(f"dobind {nm} <- (Interp.interp1d NumSig.NumR {f.mode} {f.xs} {f.ys} {q.t}) ;;\n")
             return Sc(nm)
+        if isinstance(f, Dt) and len(node.args) == 1 and not node.keywords:
+            # np.float64(x) on a scalar: conversion to double precision, the identity over the reals
+            v = self.ev(node.args[0], env)
+            if isinstance(v, Sc) and ast.unparse(node.func) == "np.float64":
+                return v
+            fail(node, "dtype constructor call form")
         if not isinstance(f, Fn):
             fail(node, "call of non-function")
         args = []
@@ -1747,7 +1753,7 @@ BUILTINS = {
     "np.sum": _sum, "sum": _sum,
     "max": _minmax("Rmax"), "min": _minmax("Rmin"),
     "np.array": _array, "np.zeros": _zeros, "np.ndim": _ndim, "np.size": _size,
-    "float": _float, "len": _len, "np.clip": _clip, "np.minimum": _minimum, "np.arange": _arange,
+    "float": _float, "np.float64": _float, "len": _len, "np.clip": _clip, "np.minimum": _minimum, "np.arange": _arange,
     "np.ones_like": lambda tr, node, args, kwargs: (DL(f"(map (fun _ => 1) {args[0].t})") if len(args) == 1 and not kwargs and isinstance(args[0], DL)
                                                      else Sc("1") if len(args) == 1 and not kwargs and isinstance(args[0], Sc) else fail(node, "np.ones_like form")),
     "np.full": _full, "np.linspace": _linspace, "np.full_like": _full_like, "np.empty_like": _empty_like, "np.result_type": _result_type,
